@@ -120,20 +120,22 @@ PROPS = {
         unreached=["FormattedEntryIoStream::next (Format trait not modelled)"],
     ),
     "C10": dict(
-        verus=[("aggregator", {}), ("agg_value", {})],
+        verus=[("aggregator", {}), ("agg_value", {}), ("worker", {})],
         technique="Verus contracts on the real KeyedAggregator::{get_or_create_accum, merge, merge_ref, flush} over a ghost-map model of hashbrown's raw-entry API and drain, and on every per-field aggregation strategy's insert (Sum, KeepLast, MergeOptions, CopyWrapper, Flatten, Distribution)",
         level_text="Deductive proof (Verus/z3) for every storage state and every input: (keyed aggregator) a merged input lands in exactly one aggregate - the one stored under the key the input itself yields, created empty on first use - "
                    "appended to what that aggregate already held, every other aggregate and key untouched; flush emits, for every key held, that key's closed aggregate under its closed key and leaves the storage empty (any number of keys). "
                    "(per-field strategies) one insertion establishes the strategy's relation: sum: new = old + input; keep-last: new = Some(input); option: absent changes nothing, present is inserted by the inner strategy; by-reference copy and flatten delegate; "
                    "distribution: the input is added to the histogram (what that records: C11). Lemmas lift the step to any input sequence (sum of u64 inputs, keep-last). "
-                   "NOT decided: the mutex-shared, worker-thread and tee sinks, flush completion / termination of the worker, the generated Merge / Key impls (proc macro).",
+                   "(worker sink) the body of the worker thread (the closure handed to thread::spawn, sliced out mechanically) merges every queued entry, answers a flush request only after a flush, and - once the channel reports every handle gone - "
+                   "flushes one last time and returns without ever polling the channel again. "
+                   "NOT decided: the mutex-shared and tee sinks, cross-thread ordering of sends, the generated Merge / Key impls (proc macro).",
         level_note="Trusted: Verus + z3; hashbrown's raw-entry API (from_hash with the equality closure, into_mut, insert_hashed_nocheck) and drain as a ghost map keyed by the key's abstract text (drain yields every pair exactly once); "
                    "the Merge / Key / CloseValue / EntrySink trait contracts; `append` is witnessed by a predicate (one call per drained pair, not a multiplicity count). Type-level deviation: the stand-in `Key` trait's GAT is declared `'static` "
                    "(this Verus' lifetime pass loses the 'static argument; lifetimes have no logical content). R3b, closure contract on the equality closure.",
         explanation="keyed aggregation: key selection, per-field strategies, flush",
         assumptions=["generated Merge / Key impls meet the trait contracts (static_key_matches compares the key text, merge appends the input)",
                      "hashbrown raw-entry / drain behave as a map keyed by key equality"],
-        unreached=["MutexSink, WorkerSink (thread, channel, timed flush), tee", "generated Merge / Key impls (metrique-macro aggregate.rs)", "AggregateSink for Aggregate<T> (embedded single aggregate)"],
+        unreached=["MutexSink, tee; WorkerSink::send / flush (channel sends)", "generated Merge / Key impls (metrique-macro aggregate.rs)", "AggregateSink for Aggregate<T> (embedded single aggregate)"],
     ),
     "C11": dict(
         verus=[("hist", {}), ("hist_exp", {})],
